@@ -60,8 +60,26 @@ func driverLoop(c *corp.Corpus, r *ev.Run, prop, kind, task string, n int, opt m
 		}
 	})
 	if err != nil {
+		driverFailed(r, prop, kind, c, err)
+	}
+}
+
+// driverFailed: a driver shard died. If the fatal error's stack passes through the generated package of the grammar
+// it was exploring, that is a finding about the generated code (it must never bring the process down); anything
+// else is a harness problem.
+func driverFailed(r *ev.Run, prop, kind string, c *corp.Corpus, err error) {
+	ce, ok := err.(*corp.CrashError)
+	if !ok || !ce.InGenerated() {
 		ev.Inconsistent("%v", err)
 	}
+	text := ""
+	for _, it := range c.Items {
+		if it.ID == ce.Item() {
+			text = it.Text
+		}
+	}
+	r.Violate(kind, "crash "+ce.Item(), fmt.Sprintf("the generated code of this grammar crashed the driving process (fatal error inside the generated package): %s\n  grammar: %s", oneLine(ce.Summary())[:min(600, len(oneLine(ce.Summary())))], oneLine(text)),
+		map[string]any{"grammar": text, "stderr": ce.Summary()})
 }
 
 func init() {
